@@ -1,4 +1,5 @@
 import CgtModel.Calendar
+import CgtModel.Generated
 /-! A scannerless model of `parser.pest` + `parser.rs` (the reader) and of `dsl.rs` (the writer).
 
 PEG reading of the grammar: ordered choice, implicit `(WHITESPACE | COMMENT)*` between the elements of
@@ -80,12 +81,22 @@ def pDecimal (cs : List Char) : Option (DDec × List Char) :=
       if fp.isEmpty then some (⟨stripZeros ip, []⟩, r) else some (⟨stripZeros ip, fp⟩, r'')
     | _ => some (⟨stripZeros ip, []⟩, r)
 
-def kwBlock : List (List Char) :=
-  ["TAX".toList, "BUY".toList, "FEES".toList, "TOTAL".toList, "RATIO".toList, "SELL".toList]
+/-- exact-case prefix (what a keyword literal without `^` would be) -/
+def matchExact : List Char → List Char → Option (List Char)
+  | [], cs => some cs
+  | _ :: _, [] => none
+  | k :: ks, c :: cs => if c = k then matchExact ks cs else none
+
+/-- the keywords of `currency_code`'s negative look-ahead and their case-sensitivity: regenerated from
+    parser.pest by tools/extract.py (group `grammar`) -/
+def kwBlock : List (List Char) := dslGuardKeywords.map String.toList
+
+def guardHit (cs : List Char) : Bool :=
+  kwBlock.any (fun k => (if dslGuardCaseInsensitive then matchKw k cs else matchExact k cs).isSome)
 
 /-- `currency_code`: look-ahead, three letters, not followed by an alphanumeric or `-` -/
 def pCurrency (cs : List Char) : Option (String × List Char) :=
-  if kwBlock.any (fun k => (matchKw k cs).isSome) then none
+  if guardHit cs then none
   else match cs with
     | a :: b :: c :: rest =>
       if isAlpha a && isAlpha b && isAlpha c then
@@ -294,10 +305,12 @@ def parse (valid : List String) (text : List Char) : Except ParseErr (List DTx) 
 
 def showDec (d : DDec) : List Char := if d.fp.isEmpty then d.ip else d.ip ++ '.' :: d.fp
 def isZeroDec (d : DDec) : Bool := (d.ip ++ d.fp).all (· = '0')
-def pad (n : Nat) (w : Nat) : List Char :=
-  let s := (toString n).toList
-  List.replicate (w - s.length) '0' ++ s
-def showDateD (t : DTx) : List Char := pad t.y 4 ++ '-' :: pad t.m 2 ++ '-' :: pad t.d 2
+def digitChar (k : Nat) : Char := Char.ofNat (48 + k % 10)
+/-- `%m`, `%d`: two digits -/
+def pad2 (n : Nat) : List Char := [digitChar (n / 10), digitChar n]
+/-- `%Y` for the years the grammar can express (four digits) -/
+def pad4 (n : Nat) : List Char := [digitChar (n / 1000), digitChar (n / 100), digitChar (n / 10), digitChar n]
+def showDateD (t : DTx) : List Char := pad4 t.y ++ '-' :: pad2 t.m ++ '-' :: pad2 t.d
 def showAmt (a : DAmt) : List Char := showDec a.d ++ ' ' :: a.cur.toList
 def optClause (kw : String) (a : DAmt) : List Char :=
   if isZeroDec a.d then [] else (" " ++ kw ++ " ").toList ++ showAmt a
